@@ -1,5 +1,5 @@
 ------------------------ MODULE AddPipelineEndTrace ------------------------
-(* [{privileged, writers, big, ok: {w: bool}, errtypes: [..], missing: [oid..], bad: [..], unprot: [..],          *)
+(* [{privileged, writers, data, ok: {w: bool}, errtypes: [..], missing: [oid..], bad: [..], unprot: [..],          *)
 (*   dir_ok: {w: bool}, rows_wrong, sig}]  - one record per executed schedule: what the writers reported and *)
 (* what an audit of the shared store and state database found once all of them had finished.                *)
 EXTENDS Naturals, Sequences, SequencesExt, Json, IOUtils, TLC
@@ -17,7 +17,7 @@ Dev == IF "F10" \in KnownDev /\ ~R.privileged /\ Failed # {} /\ ToSet(R.errtypes
           /\ ToSet(R.errnos) \subseteq {13} THEN {"F10"} ELSE {}
 Say(clause, d) == PrintT(<<"VERDICT", "C16", clause, i, 0, d>>)
 \* every schedule of the same writers (over the same data) must end in the same store
-SameOutcome == \A j \in 1..Len(Recs) : (Recs[j].writers = R.writers /\ Recs[j].uids = R.uids /\ Recs[j].big = R.big
+SameOutcome == \A j \in 1..Len(Recs) : (Recs[j].writers = R.writers /\ Recs[j].uids = R.uids /\ Recs[j].data = R.data
                                          /\ \A w \in DOMAIN Recs[j].ok : Recs[j].ok[w]) => Recs[j].sig = R.sig
 Judge ==
     i = 0 \/
